@@ -1,9 +1,14 @@
 //! vh-base: conformance harness binding the TLA+ specifications under /verif/spec to
 //! concordium_base and the key-derivation crates of /repo/rust-src.
+mod alloc;
 mod auth;
 mod envelope;
 mod updkeys;
 mod util;
+mod wire;
+
+#[global_allocator]
+static GLOBAL: alloc::Counting = alloc::Counting;
 
 fn main() {
     let args: Vec<String> = std::env::args().collect();
@@ -16,6 +21,7 @@ fn main() {
         "auth-replay" => auth::main(rest),
         "envelope-replay" => envelope::main(rest),
         "updkeys-replay" => updkeys::main(rest),
+        "wire-replay" => wire::main(rest),
         other => {
             eprintln!("unknown subcommand {}", other);
             2
